@@ -1,0 +1,65 @@
+//go:build verif
+
+// Contracts for package searcher: TermSearcher, the leaf searcher over an index reader's term field
+// reader (read by /verif/gocv; comment-only effect with the verif tag off). What is proved: given a
+// term field reader that enumerates its documents in ascending id order without skipping
+// (assumed here for the interface; proved at protocol level for scorch's reader in package scorch),
+// TermSearcher.Next / Advance satisfy the Searcher contract (search/zz_verif_searcher.go) for the
+// set of documents the reader enumerates: least unconsumed match, nothing skipped, nothing twice.
+
+package searcher
+
+// the set a term field reader enumerates, and its cursor (ghost)
+//@ uf rset(r index.TermFieldReader, k string) bool
+//@ ghostfield index.TermFieldReader.rstarted bool
+//@ ghostfield index.TermFieldReader.rlast string
+//@ ghostfield index.TermFieldReader.rdone bool
+
+// (s.tfd.Reset() hands the reader a pointer into the searcher's own struct: interior pointers are
+// outside gocv's heap model, the result is modelled as an unknown non-nil *TermFieldDoc; nothing
+// proved here depends on the content of s.tfd beyond: the id buffer handed to the reader is s.tfd's)
+//@ assume func index.TermFieldDoc.Reset(tfd)
+//@   ensures result != nil && len(result.ID) == 0 && cap(result.ID) == cap(tfd.ID) && base(result.ID) == base(tfd.ID)
+//@ assume func index.TermFieldReader.Next(r, preAlloced)
+//@   requires r != nil
+//@   modifies r.rstarted, r.rlast, r.rdone, fields(index.TermFieldDoc), preAlloced.ID[*]
+//@   ensures implies(result1 != nil, result0 == nil)
+//@   ensures implies(old(r.rdone) && result1 == nil, result0 == nil)
+//@   ensures implies(result1 == nil && result0 != nil, len(result0.ID) > 0 && rset(r, idKey(result0.ID)) && unconsumed(old(r.rstarted), old(r.rlast), idKey(result0.ID)) && r.rstarted && r.rlast == idKey(result0.ID) && !r.rdone)
+//@   ensures implies(result1 == nil && result0 != nil, all(x, string, implies(rset(r, x) && unconsumed(old(r.rstarted), old(r.rlast), x), x >= idKey(result0.ID))))
+//@   ensures implies(result1 == nil && result0 == nil, r.rdone && r.rstarted == old(r.rstarted) && r.rlast == old(r.rlast) && all(x, string, implies(rset(r, x), !unconsumed(old(r.rstarted), old(r.rlast), x))))
+//@ assume func index.TermFieldReader.Advance(r, ID, preAlloced)
+//@   requires r != nil && (r.rdone || unconsumed(r.rstarted, r.rlast, idKey(ID)))
+//@   modifies r.rstarted, r.rlast, r.rdone, fields(index.TermFieldDoc), preAlloced.ID[*]
+//@   ensures implies(result1 != nil, result0 == nil)
+//@   ensures implies(old(r.rdone) && result1 == nil, result0 == nil)
+//@   ensures implies(result1 == nil && result0 != nil, len(result0.ID) > 0 && rset(r, idKey(result0.ID)) && idKey(result0.ID) >= old(idKey(ID)) && r.rstarted && r.rlast == idKey(result0.ID) && !r.rdone)
+//@   ensures implies(result1 == nil && result0 != nil, all(x, string, implies(rset(r, x) && x >= old(idKey(ID)), x >= idKey(result0.ID))))
+//@   ensures implies(result1 == nil && result0 == nil, r.rdone && r.rstarted == old(r.rstarted) && r.rlast == old(r.rlast) && all(x, string, implies(rset(r, x), x < old(idKey(ID)))))
+
+// the searcher's cursor mirrors its reader's; what it matches is what the reader enumerates
+//@ spec termLink(s *TermSearcher) bool = s.reader != nil && s.scorer != nil && s.started == s.reader.rstarted && s.last == s.reader.rlast && s.done == s.reader.rdone && all(x, string, mset(s, x) == rset(s.reader, x))
+
+//@ func TermSearcher.Next
+//@   props C02 C08
+//@   mode int
+//@   implements search.Searcher.Next
+//@   requires ctx != nil && ctx.DocumentMatchPool != nil && termLink(s)
+//@   modifies s.tfd, s.reader.rstarted, s.reader.rlast, s.reader.rdone, fields(index.TermFieldDoc), s.tfd.ID[*], fields(search.DocumentMatch), search.DocumentMatchPool.avail, mem(*search.DocumentMatch)
+//@   at return: ghost s.started = s.reader.rstarted
+//@   at return: ghost s.last = s.reader.rlast
+//@   at return: ghost s.done = s.reader.rdone
+//@   ensures implies(result1 == nil, termLink(s))
+
+//@ func TermSearcher.Advance
+//@   props C02 C08
+//@   mode int
+//@   implements search.Searcher.Advance
+//@   requires ctx != nil && ctx.DocumentMatchPool != nil && termLink(s)
+// (the reader writes ids into the searcher's private id buffer: the target does not live there)
+//@   requires len(ID) > 0 && base(s.tfd.ID) != base(ID)
+//@   modifies s.tfd, s.reader.rstarted, s.reader.rlast, s.reader.rdone, fields(index.TermFieldDoc), s.tfd.ID[*], fields(search.DocumentMatch), search.DocumentMatchPool.avail, mem(*search.DocumentMatch)
+//@   at return: ghost s.started = s.reader.rstarted
+//@   at return: ghost s.last = s.reader.rlast
+//@   at return: ghost s.done = s.reader.rdone
+//@   ensures implies(result1 == nil, termLink(s))
